@@ -371,8 +371,14 @@ where
 
     // Iterate air builders first (fixed registration order) so that the
     // resulting AIR ordering matches the prover's non_primitive_provers order.
+    //
+    // A builder that accepts several op types takes the first one in sorted order: the choice
+    // must not depend on the iteration order of the hash map.
+    let mut op_types: Vec<&NpoTypeId> = non_primitive_base.keys().collect();
+    op_types.sort();
     for builder in non_primitive_air_builders {
-        for (op_type, prep_base) in non_primitive_base.iter() {
+        for &op_type in &op_types {
+            let prep_base = &non_primitive_base[op_type];
             // TablePacking overrides the builder's own default lane count.
             let lanes = packing
                 .npo_lanes(op_type)
